@@ -5,12 +5,12 @@ import Mathlib.Tactic.FieldSimp
 /-!
 # C15 — observations faithfully encode the state and identify the pending offer
 
-* positions vs. numbers: the factory sorts jobs and machines by their id *string* and then uses
-  list positions as job / machine numbers.  `c15_positions_are_numbers`: with at most ten jobs
-  (machines) numbered 0 … n-1 position k holds number k, so every per-job / per-machine array is
-  indexed by number, whatever the internal order (`c15_job_running_by_number`, …).
-  `c15_eleven_misindexed`: with eleven, position 2 holds number 10 – the arrays are permuted
-  (genuine defect, known finding for instances with more than ten jobs or machines);
+* positions vs. numbers: the factory sorts jobs and machines by their numeric id and then uses
+  list positions as job / machine numbers.  `c15_positions_are_numbers`: for jobs (machines)
+  numbered 0 … n-1 position k holds number k, so every per-job / per-machine array is indexed by
+  number, whatever the internal order (`c15_job_running_by_number`, …).
+  `c15_string_order_misindexes_eleven`: sorted by id string – what the code did before the repair
+  "fix: sort jobs and machines by numeric id" – position 2 of eleven holds number 10;
 * the offer encoding is injective over the offers of one instance (`c15_offer_injective`, exact
   rationals; float32 rounding is checked per instance on the implementation side);
 * the observation is a function of the state and the head offer (`c15_offer_depends_on_head`).
@@ -18,79 +18,51 @@ import Mathlib.Tactic.FieldSimp
 
 namespace JSL
 
-theorem idStrLe_small : ∀ a b : Fin 10, idStrLe a.val b.val = decide (a.val ≤ b.val) := by decide
-
-theorem idStrLe_trans (a b c : Nat) (h1 : idStrLe a b = true) (h2 : idStrLe b c = true) : idStrLe a c = true := by
-  simp only [idStrLe, decide_eq_true_eq] at *
-  exact String.le_trans h1 h2
-
-theorem idStrLe_total (a b : Nat) : (idStrLe a b || idStrLe b a) = true := by
-  simp only [idStrLe, Bool.or_eq_true, decide_eq_true_eq]
-  exact String.le_total _ _
-
-theorem sortByIdStr_perm {α} (id : α → Nat) (l : List α) : (sortByIdStr id l).Perm l :=
+theorem sortById_perm {α} (id : α → Nat) (l : List α) : (sortById id l).Perm l :=
   List.mergeSort_perm _ _
 
-theorem sortByIdStr_sorted {α} (id : α → Nat) (l : List α) :
-    (sortByIdStr id l).Pairwise (fun a b => idStrLe (id a) (id b) = true) := by
-  have := List.pairwise_mergeSort (le := fun (a b : α) => idStrLe (id a) (id b))
-    (fun a b c h1 h2 => idStrLe_trans (id a) (id b) (id c) h1 h2) (fun a b => idStrLe_total (id a) (id b)) l
-  exact this
+theorem sortById_sorted {α} (id : α → Nat) (l : List α) :
+    (sortById id l).Pairwise (fun a b => id a ≤ id b) := by
+  have := List.pairwise_mergeSort (le := fun (a b : α) => decide (id a ≤ id b))
+    (fun a b c h1 h2 => by simp at *; omega) (fun a b => by simp; omega) l
+  exact this.imp (fun h => by simpa using h)
 
-/-- with single-digit numbers the string order is the numeric order: the sorted list is strictly
-increasing in the numbers -/
-theorem c15_small_ids_sorted_numerically {α} (id : α → Nat) (l : List α) (hsmall : ∀ a ∈ l, id a < 10)
-    (hnd : (l.map id).Nodup) : ((sortByIdStr id l).map id).Pairwise (· < ·) := by
-  have hp := sortByIdStr_perm id l
-  have hs := sortByIdStr_sorted id l
-  have hnd' : ((sortByIdStr id l).map id).Nodup := (hp.map id).nodup_iff.mpr hnd
-  rw [List.pairwise_map]
-  have hne : (sortByIdStr id l).Pairwise (fun a b => id a ≠ id b) := by
-    rw [List.nodup_iff_pairwise_ne, List.pairwise_map] at hnd'
-    exact hnd'
-  refine (hs.and hne).imp_of_mem ?_
-  intro a b ha hb ⟨hle, hneq⟩
-  have h1 := hsmall a (hp.subset ha)
-  have h2 := hsmall b (hp.subset hb)
-  have := idStrLe_small ⟨id a, h1⟩ ⟨id b, h2⟩
-  simp only at this
-  rw [this] at hle
-  have : id a ≤ id b := by simpa using hle
-  omega
-
-/-- **Positions are numbers** for at most ten jobs (machines) numbered 0 … n-1. -/
-theorem c15_positions_are_numbers {α} (id : α → Nat) (l : List α) (n : Nat) (hn : n ≤ 10)
-    (hids : (l.map id).Perm (List.range n)) : (sortByIdStr id l).map id = List.range n := by
-  have hsmall : ∀ a ∈ l, id a < 10 := by
-    intro a ha
-    have : id a ∈ List.range n := hids.subset (List.mem_map.mpr ⟨a, ha, rfl⟩)
-    have := List.mem_range.mp this
-    omega
+/-- **Positions are numbers**: for jobs (machines) numbered 0 … n-1 in whatever internal order,
+position `k` of the list the factory builds its arrays from holds number `k`. -/
+theorem c15_positions_are_numbers {α} (id : α → Nat) (l : List α) (n : Nat)
+    (hids : (l.map id).Perm (List.range n)) : (sortById id l).map id = List.range n := by
   have hnd : (l.map id).Nodup := hids.nodup_iff.mpr List.nodup_range
-  have h1 := c15_small_ids_sorted_numerically id l hsmall hnd
+  have hp := sortById_perm id l
+  have hnd' : ((sortById id l).map id).Nodup := (hp.map id).nodup_iff.mpr hnd
+  have h1 : ((sortById id l).map id).Pairwise (· < ·) := by
+    rw [List.pairwise_map]
+    have hne : (sortById id l).Pairwise (fun a b => id a ≠ id b) := by
+      rw [List.nodup_iff_pairwise_ne, List.pairwise_map] at hnd'
+      exact hnd'
+    exact ((sortById_sorted id l).and hne).imp (fun ⟨h1, h2⟩ => by omega)
   have h2 : (List.range n).Pairwise (· < ·) := List.pairwise_lt_range
-  have hperm : ((sortByIdStr id l).map id).Perm (List.range n) := ((sortByIdStr_perm id l).map id).trans hids
+  have hperm : ((sortById id l).map id).Perm (List.range n) := (hp.map id).trans hids
   exact List.Perm.eq_of_pairwise (le := (· < ·)) (fun a b _ _ h1 h2 => by omega) h1 h2 hperm
 
 /-- position `k` of the sorted list holds the element numbered `k` -/
-theorem sorted_getElem {α} (id : α → Nat) (l : List α) (n : Nat) (hn : n ≤ 10)
+theorem sorted_getElem {α} (id : α → Nat) (l : List α) (n : Nat)
     (hids : (l.map id).Perm (List.range n)) (k : Nat) (hk : k < n) :
-    ∃ a ∈ l, id a = k ∧ (sortByIdStr id l)[k]? = some a := by
-  have h := c15_positions_are_numbers id l n hn hids
-  have hlen : (sortByIdStr id l).length = n := by
+    ∃ a ∈ l, id a = k ∧ (sortById id l)[k]? = some a := by
+  have h := c15_positions_are_numbers id l n hids
+  have hlen : (sortById id l).length = n := by
     have := congrArg List.length h; simpa using this
-  have hk' : k < (sortByIdStr id l).length := by omega
-  refine ⟨(sortByIdStr id l)[k], (sortByIdStr_perm id l).subset (List.getElem_mem hk'), ?_, by simp [hk']⟩
+  have hk' : k < (sortById id l).length := by omega
+  refine ⟨(sortById id l)[k], (sortById_perm id l).subset (List.getElem_mem hk'), ?_, by simp [hk']⟩
   have := congrArg (fun x => x[k]?) h
   simp only [List.getElem?_map, List.getElem?_range hk] at this
   simpa [hk'] using this
 
 /-- the `job_running` array is indexed by job number -/
 theorem c15_job_running_by_number (nm : Nat) (tmax : Int) (s : State) (obs : SimpleObs)
-    (h : simpleObs nm tmax s = .ok obs) (n : Nat) (hn : n ≤ 10)
+    (h : simpleObs nm tmax s = .ok obs) (n : Nat)
     (hids : (s.jobs.map (·.id)).Perm (List.range n)) (k : Nat) (hk : k < n) :
     ∃ j ∈ s.jobs, j.id = k ∧ obs.jobRunning[k]? = some j.running := by
-  obtain ⟨j, hj, hid, hget⟩ := sorted_getElem (fun (x : JobState) => x.id) s.jobs n hn hids k hk
+  obtain ⟨j, hj, hid, hget⟩ := sorted_getElem (fun (x : JobState) => x.id) s.jobs n hids k hk
   refine ⟨j, hj, hid, ?_⟩
   unfold simpleObs at h
   simp only [bind, Except.bind, pure, Except.pure] at h
@@ -101,10 +73,10 @@ theorem c15_job_running_by_number (nm : Nat) (tmax : Int) (s : State) (obs : Sim
 
 /-- the `machine_running` array is indexed by machine number -/
 theorem c15_machine_running_by_number (nm : Nat) (tmax : Int) (s : State) (obs : SimpleObs)
-    (h : simpleObs nm tmax s = .ok obs) (n : Nat) (hn : n ≤ 10)
+    (h : simpleObs nm tmax s = .ok obs) (n : Nat)
     (hids : (s.machines.map (·.id)).Perm (List.range n)) (k : Nat) (hk : k < n) :
     ∃ m ∈ s.machines, m.id = k ∧ obs.machineRunning[k]? = some (m.st == .working) := by
-  obtain ⟨m, hm, hid, hget⟩ := sorted_getElem (fun (x : MachineState) => x.id) s.machines n hn hids k hk
+  obtain ⟨m, hm, hid, hget⟩ := sorted_getElem (fun (x : MachineState) => x.id) s.machines n hids k hk
   refine ⟨m, hm, hid, ?_⟩
   unfold simpleObs at h
   simp only [bind, Except.bind, pure, Except.pure] at h
@@ -116,11 +88,11 @@ theorem c15_machine_running_by_number (nm : Nat) (tmax : Int) (s : State) (obs :
 /-- the `machine_progression` array is indexed by machine number and counts the finished
 operations of that machine -/
 theorem c15_machine_progression_by_number (nm : Nat) (tmax : Int) (s : State) (obs : SimpleObs)
-    (h : simpleObs nm tmax s = .ok obs) (n : Nat) (hn : n ≤ 10)
+    (h : simpleObs nm tmax s = .ok obs) (n : Nat)
     (hids : (s.machines.map (·.id)).Perm (List.range n)) (k : Nat) (hk : k < n) :
     obs.machineProgression[k]? =
-      some (((sortByIdStr (·.id) s.jobs).flatMap (·.ops)).filter fun o => o.machine == k && o.st == .done).length := by
-  obtain ⟨m, hm, hid, hget⟩ := sorted_getElem (fun (x : MachineState) => x.id) s.machines n hn hids k hk
+      some (((sortById (·.id) s.jobs).flatMap (·.ops)).filter fun o => o.machine == k && o.st == .done).length := by
+  obtain ⟨m, hm, hid, hget⟩ := sorted_getElem (fun (x : MachineState) => x.id) s.machines n hids k hk
   unfold simpleObs at h
   simp only [bind, Except.bind, pure, Except.pure] at h
   repeat' split at h
@@ -129,21 +101,35 @@ theorem c15_machine_progression_by_number (nm : Nat) (tmax : Int) (s : State) (o
     | (simp only [Except.ok.injEq] at h; subst h; simp [List.getElem?_map, hget, hid])
 
 
+theorem idStrLe_trans (a b c : Nat) (h1 : idStrLe a b = true) (h2 : idStrLe b c = true) : idStrLe a c = true := by
+  simp only [idStrLe, decide_eq_true_eq] at *
+  exact String.le_trans h1 h2
+
+theorem idStrLe_total (a b : Nat) : (idStrLe a b || idStrLe b a) = true := by
+  simp only [idStrLe, Bool.or_eq_true, decide_eq_true_eq]
+  exact String.le_total _ _
+
 theorem idStrLe_antisymm11 : ∀ a b : Fin 11, idStrLe a.val b.val = true → idStrLe b.val a.val = true → a = b := by decide
 
-/-- **Eleven jobs (or machines) are mis-indexed**: sorted by id string, number 10 comes third, so
-position 2 of every per-job array describes job 10 and positions 3 … 10 describe jobs 2 … 9. -/
-theorem c15_eleven_misindexed :
+/-- **Regression: why the sort key matters.**  Sorted by id *string* – as the factory did before
+the repair – number 10 comes third among eleven, so position 2 of every per-job array described
+job 10 and positions 3 … 10 described jobs 2 … 9. -/
+theorem c15_string_order_misindexes_eleven :
     sortByIdStr (fun (x : Nat) => x) (List.range 11) = [0, 1, 10, 2, 3, 4, 5, 6, 7, 8, 9] := by
+  have hperm : (sortByIdStr (fun (x : Nat) => x) (List.range 11)).Perm (List.range 11) := List.mergeSort_perm _ _
+  have hsorted : (sortByIdStr (fun (x : Nat) => x) (List.range 11)).Pairwise (fun a b => idStrLe a b = true) := by
+    have := List.pairwise_mergeSort (le := fun (a b : Nat) => idStrLe a b)
+      (fun a b c h1 h2 => idStrLe_trans a b c h1 h2) (fun a b => idStrLe_total a b) (List.range 11)
+    exact this
   apply List.Perm.eq_of_pairwise (le := fun a b => idStrLe a b = true)
   · intro a b ha hb h1 h2
-    have ha' : a < 11 := List.mem_range.mp ((sortByIdStr_perm _ _).subset ha)
+    have ha' : a < 11 := List.mem_range.mp (hperm.subset ha)
     have hb' : b < 11 := by simp at hb; omega
     have := idStrLe_antisymm11 ⟨a, ha'⟩ ⟨b, hb'⟩ h1 h2
     exact congrArg Fin.val this
-  · exact sortByIdStr_sorted _ _
+  · exact hsorted
   · decide
-  · exact (sortByIdStr_perm _ _).trans (by decide)
+  · exact hperm.trans (by decide)
 
 /-! ### the offer encoding -/
 
